@@ -83,7 +83,7 @@ loop:
 		}
 	}
 	t.Stop()
-	fmt.Println("ticks", ticks)
+	fmt.Println("ticks>=3", ticks >= 3) // (a slow machine may see a fourth tick ready together with done)
 	// AfterFunc + once + buffered channel
 	var once sync.Once
 	res := make(chan string, 2)
